@@ -110,7 +110,7 @@ def larger_cases(draw):
         pool = draw(st.lists(st.integers(1, 12), min_size=2, max_size=3))
         values = [pool[i % len(pool)] for i in S.splitmix(seed, n, 0, 5)]
     d = draw(st.sampled_from([None, 1, 1, 2, 3]))
-    case = {"alg": "cbldm", "values": values, "numbins": 2, "pres": draw(st.sampled_from(["list", "list", "dict-str"])),
+    case = {"alg": "cbldm", "values": values, "numbins": 2, "pres": draw(st.sampled_from(["list", "list", "dict-str", "dict-int", "names-array"])),
             "nseed": draw(st.integers(0, 5)), "profile": "larger-" + style}
     if d is not None:
         case["opts"] = {"partition_difference": d}
